@@ -41,8 +41,8 @@ Inductive case :=
           (pre : list (Z * fvec2))                      (* positions returned by check_and_fix_cis_trans (dict order) *)
           (al : option (float * float))                 (* align_with given: (np.cos angle, np.sin angle) of the recorded
                                                            linalg_functions.rotate call (transcript); None otherwise *)
-          (mid : list (Z * fvec2))                      (* rows returned by rotate_to_axis on the keys of the dict, in dict
-                                                           order (= pre when align_with is None) *)
+          (ain mid : list (Z * fvec2))                  (* rows handed to / returned by rotate_to_axis on the keys of the
+                                                           dict, in dict order (both [] when align_with is None) *)
           (lens : list float)                           (* np.linalg.norm results of the rescale loop (transcript) *)
           (post : list (Z * fvec2))                     (* what vespr_layout returned (dict order) *)
 | CRot (edges : list (Z * Z)) (anchor target : Z)
@@ -84,18 +84,29 @@ Fixpoint pos_close (pre model obs : list (Z * fvec2)) : bool :=
   | _, _, _ => false
   end.
 
+(** the steps of the GENERATED tail, followed on the recorded values: the current dict [cur] starts as [pre];
+    TAlign (align_with given): the rows handed to rotate_to_axis are the values of [cur] in dict order ([ain]), the
+    generated rotation of them agrees with the rows that came back ([mid], which become the current dict);
+    TRescale: norm transcript within its contract on [cur], then the float rescale, bit for bit. *)
+Definition corr_step (edges : list (Z * Z)) (db : float) (al : option (float * float)) (ain mid : list (Z * fvec2))
+           (lens : list float) (acc : bool * list (Z * fvec2)) (st : tail_step) : bool * list (Z * fvec2) :=
+  let '(ok, cur) := acc in
+  match st with
+  | TAlign => match al with
+              | None => (ok, cur)
+              | Some _ => (ok && pos_eqb cur ain && pos_close cur (align_step numF al cur) mid, mid)
+              end
+  | TRescale => (ok && lens_ok (lens_of numF PrimFloat.sqrt (posf cur) edges) lens, rescale_with numF db lens cur)
+  end.
+
 Definition corr_ok (c : case) : bool :=
   match c with
-  | CLayout nodes edges db exc pre al mid lens post =>
+  | CLayout nodes edges db exc pre al ain mid lens post =>
       Nat.eqb exc 0 &&
-      tail_eqb gen_vespr_tail [TAlign; TRescale] &&                       (* the step order this comparison follows *)
+      tail_ok gen_vespr_tail && Nat.leb (length (filter (fun st => negb (is_rescale st)) gen_vespr_tail)) 1 &&
       al_contract_b al &&
-      match al with
-      | None => pos_eqb pre mid
-      | Some _ => pos_close pre (align_step numF al pre) mid
-      end &&
-      lens_ok (lens_of numF PrimFloat.sqrt (posf mid) edges) lens &&      (* contract of the norm transcript *)
-      pos_eqb (rescale_with numF db lens mid) post
+      let '(ok, cur) := fold_left (corr_step edges db al ain mid lens) gen_vespr_tail (true, pre) in
+      ok && pos_eqb cur post
   | CRot edges anchor target comps exc pre post =>
       match rotate_subgraph (fun _ p => p) edges anchor target comps (posf pre) with
       | Ok (comp, _) => Nat.eqb exc 0 && comp_contract edges anchor target comp &&
@@ -123,7 +134,7 @@ Definition has_key (k : Z) (l : list (Z * fvec2)) : bool := existsb (fun kp => Z
 
 Definition prop_fail (c : case) : nat :=
   match c with
-  | CLayout nodes edges db exc pre _ _ lens post =>
+  | CLayout nodes edges db exc pre _ _ _ lens post =>
       if Nat.eqb exc 3 then 2%nat
       else if negb (Nat.eqb exc 0) then 1%nat
       else if negb (Nat.eqb (length post) (length nodes) && forallb (fun k => has_key k post) nodes) then 2%nat
